@@ -1,5 +1,6 @@
 import KcpVerif.Model.Kcp
 import KcpVerif.Lemmas.KcpShiftOps
+import KcpVerif.Lemmas.KcpShiftWire
 /-!
 C12 — behaviour is invariant under sequence-number and clock wrap-around (protocol core).
 
@@ -112,6 +113,43 @@ theorem C12_input_shift {σ : Sigma} {k k' : Kcp} (h : Sim σ k k') (data : Byte
     InRel σ (input k data regular ackNoDelay now) (input k' (shiftIn σ data) regular ackNoDelay (now + σ.t)) :=
   input_sim h data regular ackNoDelay now
 
+/-- on one whole wire segment `shiftIn` adds the per-command constants to `ts`, `sn`, `una` and leaves
+conv, cmd, frg, wnd, len and the payload alone -/
+theorem C12_shiftIn_segment (σ : Sigma) (conv : U32) (cmd frg : BitVec 8) (wnd : BitVec 16) (ts sn una : U32)
+    (data : Bytes) (hlen : data.length < 2 ^ 32) :
+    shiftIn σ (encodeHdr conv cmd frg wnd ts sn una data.length ++ data) =
+      encodeHdr conv cmd frg wnd (ts + (inDeltas σ cmd.toNat).1) (sn + (inDeltas σ cmd.toNat).2.1)
+        (una + (inDeltas σ cmd.toNat).2.2) data.length ++ data :=
+  shiftIn_single σ conv cmd frg wnd ts sn una data hlen
+
+/-- the two conventions agree: the shifted form of an emitted PUSH / ACK / WASK segment in `OutRel σ`
+(right-hand sides of its constructors) is `shiftIn σ.swap` of the unshifted segment, where
+`σ.swap = (b, a, u, t)` is the same shift seen from the peer — so in a closed two-endpoint system
+A's shifted world produces exactly the inputs of B's shifted world -/
+theorem C12_out_in_consistent (σ : Sigma) (conv : U32) (frg : BitVec 8) (wnd : BitVec 16) (ts sn una : U32)
+    (data : Bytes) (hlen : data.length < 2 ^ 32) :
+    shiftIn σ.swap (encodeHdr conv (BitVec.ofNat 8 IKCP_CMD_PUSH) frg wnd ts sn una data.length ++ data) =
+      encodeHdr conv (BitVec.ofNat 8 IKCP_CMD_PUSH) frg wnd (ts + σ.t) (sn + σ.a) (una + σ.b) data.length ++ data ∧
+    shiftIn σ.swap (encodeHdr conv (BitVec.ofNat 8 IKCP_CMD_ACK) 0 wnd ts sn una 0) =
+      encodeHdr conv (BitVec.ofNat 8 IKCP_CMD_ACK) 0 wnd (ts + σ.u) (sn + σ.b) (una + σ.b) 0 ∧
+    shiftIn σ.swap (encodeHdr conv (BitVec.ofNat 8 IKCP_CMD_WASK) 0 wnd ts sn una 0) =
+      encodeHdr conv (BitVec.ofNat 8 IKCP_CMD_WASK) 0 wnd ts sn (una + σ.b) 0 := by
+  have h1 := shiftIn_single σ.swap conv (BitVec.ofNat 8 IKCP_CMD_PUSH) frg wnd ts sn una data hlen
+  have h2 := shiftIn_single σ.swap conv (BitVec.ofNat 8 IKCP_CMD_ACK) 0 wnd ts sn una [] (by decide)
+  have h3 := shiftIn_single σ.swap conv (BitVec.ofNat 8 IKCP_CMD_WASK) 0 wnd ts sn una [] (by decide)
+  have e1 : (BitVec.ofNat 8 IKCP_CMD_PUSH).toNat = IKCP_CMD_PUSH := by decide
+  have e2 : (BitVec.ofNat 8 IKCP_CMD_ACK).toNat = IKCP_CMD_ACK := by decide
+  have e3 : (BitVec.ofNat 8 IKCP_CMD_WASK).toNat = IKCP_CMD_WASK := by decide
+  obtain ⟨d1, d2, d3, _⟩ := inDeltas_swap σ
+  rw [e1, d1] at h1
+  rw [e2, d2] at h2
+  rw [e3, d3] at h3
+  simp only [List.length_nil, List.append_nil] at h2 h3
+  have z1 : ts + 0 = ts := by bv_omega
+  have z2 : sn + 0 = sn := by bv_omega
+  rw [z1, z2] at h3
+  exact ⟨h1, h2, h3⟩
+
 /-! ### the simulation theorem -/
 
 /-- **Shift simulation.** Every operation of the core (Send, Recv, PeekSize, Input, flush, Update,
@@ -134,6 +172,12 @@ for all 2^128 values of `σ`, i.e. every placement of the 2^31 and 2^32 boundari
 theorem C12_run_from_new (σ : Sigma) (conv : U32) (ops : List Op) :
     All₂ (ObsRel σ) (run (Kcp.new conv) ops).2 (run (shiftK σ (Kcp.new conv)) (ops.map (shiftOp σ))).2 :=
   (run_sim (sim_shiftK σ (Kcp.new conv) (C12_fresh_new conv)) ops).2
+
+/-- the shifted initial state is exactly what the harness hook `VerifKCPShift(k, a, b)` builds from
+`NewKCP`: only `snd_una`, `snd_nxt`, `rcv_nxt` move (the clock offset lives in the `now` arguments) -/
+theorem C12_shiftK_new (σ : Sigma) (conv : U32) :
+    shiftK σ (Kcp.new conv) = { Kcp.new conv with snd_una := σ.a, snd_nxt := σ.a, rcv_nxt := σ.b } := by
+  simp [shiftK, Kcp.new]
 
 /-- consequences of `ObsRel` a test can observe without decoding: same return values, same
 delivered bytes, same number of datagrams, each of the same length -/
